@@ -2,6 +2,7 @@ import OV.Model.C13Export
 import OV.Lemmas.C13
 import OV.Lemmas.C13Roundtrip
 import OV.Lemmas.C13Types
+import OV.Lemmas.C13Conflict
 import Std.Data.String.ToInt
 /-!
 # C13 — ONNX → Python (`proto2python`) → ONNX round-trips to an equivalent model
@@ -420,11 +421,55 @@ example :
       = ["L1 call t_0 = opset18.Relu(x_1|)", "L1 call t_0_1 = opset18.Neg(x_1|)", "L1 op u = t_0 + t_0_1"] := by
   decide
 
+/-- **The round trip with initializers** (`export_roundtrip_inits_partial`): initializers that are neither skipped
+(`skip_initializers` only skips tensors of more than 4 elements) nor inlined are printed exactly like leading `Constant`
+nodes holding the tensor (`exportModel_unfoldInits`), and an initializer *denotes* what the operator semantics gives
+that `Constant` node (`evalGraphI`).  For every model whose unfolded form is in the straight-line fragment, every
+uninterpreted operator semantics and every argument list, the exporter prints `exportStraight` of the unfolded model
+and the graph read back computes what the original graph with its initializers computes. -/
+theorem export_roundtrip_inits_partial {V : Type} (S : Sem V) (o : Opts) (m : ModelP) (d : Nat)
+    (hskip : noneSkipped o m.graph = true) (hfrag : straightModel o m.unfoldInits = true) (args : List V) :
+    exportModel o (d + 1) m = .ok (renderProg (exportStraight o m.unfoldInits))
+    ∧ evalGraph S (progToGraph (exportStraight o m.unfoldInits)) args = evalGraphI S m.graph args := by
+  have hs : m.graph.nSparse = 0 := by
+    have h' := hfrag
+    unfold straightModel at h'
+    simp only [Bool.and_eq_true, beq_iff_eq] at h'
+    have := h'.1.1.1.1.1.1.1.2
+    simpa [ModelP.unfoldInits, initsAsNodes, Graph.nSparse] using this
+  constructor
+  · rw [exportModel_unfoldInits o (d + 1) m hskip hs]
+    exact exportModel_straight o m.unfoldInits hfrag d
+  · exact (export_roundtrip_partial S o m.unfoldInits hfrag args).1
+
+/-- non-vacuity: a model with two initializers (one needing clean-up) in the extended fragment -/
+example :
+    noneSkipped ⟨false, true, false, true⟩
+      (.mk ["x"] ["y"] [("w.0", 3, 1, [3], true, "#0"), ("b", 1, 1, [], true, "#1")] 0
+        [.mk "Mul" "" "" ["x", "w.0"] ["t"] [], .mk "Add" "" "" ["t", "b"] ["y"] []]) = true
+    ∧ straightModel ⟨false, true, false, true⟩
+      (ModelP.unfoldInits ⟨"g", none, [("", 18)],
+        .mk ["x"] ["y"] [("w.0", 3, 1, [3], true, "#0"), ("b", 1, 1, [], true, "#1")] 0
+          [.mk "Mul" "" "" ["x", "w.0"] ["t"] [], .mk "Add" "" "" ["t", "b"] ["y"] []]⟩) = true := by
+  decide
+
 /-- **Which table entries are asymmetric**: of the exporter's operator table exactly the (dead) key `"Lesser"` is
 not mapped back to itself by the converter's `primop_map` (`<` reads back as `Less`); every other entry is
 symmetric at the level of operator names. -/
 theorem sugar_table_asymmetry :
     ∀ p ∈ opsTable, (convTable.lookup p.2 = some p.1 ↔ p.1 ≠ "Lesser") := by decide
+
+/-- **Operator table theorem**: every printed operator of the exporter's table other than the dead `"Lesser"`,
+re-translated by the converter's `primop_map`, gives the same `op_type` in the standard domain, with the two
+operands in order, one output and **no attributes** — so the round trip of a sugared node is exact precisely
+when the node had no attributes (the ONNX schemas of these twelve operators declare none: checked against
+`onnx.defs` on every run by the harness). -/
+theorem sugar_roundtrip_table (imports : List (String × String)) (out a b : String) :
+    ∀ p ∈ opsTable, p.1 ≠ "Lesser" →
+      stmtToNode imports (.binop out p.2 a b) = Node.mk p.1 "" "" [unPy a, unPy b] [out] [] := by
+  intro p hp hne
+  have h := (sugar_table_asymmetry p hp).mpr hne
+  simp only [stmtToNode, h, Option.getD_some]
 
 /-- **Sugar never carries attributes back**: whatever the node had, the node read from `out = a sym b` has none —
 the second asymmetry (a sugared operator whose attributes matter, e.g. `Mod`/`fmod` if `%` were added to the
@@ -536,5 +581,37 @@ example : (toAnn ⟨1, some [.val 0]⟩).bind evalAnn = some ⟨1, some [.val 0]
     ∧ (toAnn ⟨7, some [.sym "N", .val 3, .unk]⟩).map renderAnn = some "INT64['N',3,None]"
     ∧ (toAnn ⟨9, some []⟩).map renderAnn = some "BOOL" ∧ (toAnn ⟨11, none⟩).map renderAnn = some "DOUBLE[...]" := by
   decide
+
+/-! ## attribute parameters of FunctionProtos (`_handle_attrname_conflict`) -/
+
+/-- **The conflict handler keeps value names distinct and away from the attribute parameters** — for every set of
+attribute parameters `A`, every set `N0` of names marked used at the start (the base names of all values of the
+function and the attribute names, as `_translate_function` sets `_names_used`), every request sequence over `N0`
+(any length, any repetition): no printed name is an attribute parameter, and two requests print the same name
+**iff** they are the same base name.  (This is where the seeded change C13-3 lives: accepting a candidate that is
+in `_names_used` breaks `findCand_notin`.) -/
+theorem attr_conflict_names_injective (A N0 : List String) (hA : ∀ a ∈ A, a ∈ N0) (hnd : A.Nodup)
+    (nns : List String) (hN : ∀ n ∈ nns, n ∈ N0) :
+    (conflictRun (A.map (·, none)) N0 nns).1.length = nns.length
+    ∧ (∀ r ∈ (conflictRun (A.map (·, none)) N0 nns).1, r ∉ A)
+    ∧ ∀ i j (hi : i < nns.length) (hj : j < nns.length),
+        ((conflictRun (A.map (·, none)) N0 nns).1[i]? = (conflictRun (A.map (·, none)) N0 nns).1[j]?
+          ↔ nns[i] = nns[j]) := by
+  obtain ⟨hinv, _, hrs, hset, hna⟩ :=
+    conflictRun_spec hA nns _ _ (confInv_start A N0 hA hnd) hN
+  refine ⟨by rw [hrs]; simp, hna, ?_⟩
+  intro i j hi hj
+  rw [hrs]
+  simp only [List.getElem?_map, List.getElem?_eq_getElem hi, List.getElem?_eq_getElem hj, Option.map_some,
+    Option.some.injEq]
+  constructor
+  · intro e
+    exact confRes_inj hinv (hN _ (List.getElem_mem hi)) (hN _ (List.getElem_mem hj))
+      (hset _ (List.getElem_mem hi)) (hset _ (List.getElem_mem hj)) e
+  · intro e; rw [e]
+
+/-- the scenario of C13-3: attribute `alpha`, values with base names `alpha`, `alpha_0`, `X` -/
+example : (conflictRun (["alpha"].map (·, none)) ["alpha", "alpha", "alpha_0", "X"] ["alpha", "alpha_0", "X", "alpha"]).1
+    = ["alpha_1", "alpha_0", "X", "alpha_1"] := by decide
 
 end OV.Props.C13
